@@ -18,8 +18,8 @@ Print Assumptions C15_preview_selected.
 (* commit side: every submitted edit is either applied or skipped, and only session marks are added *)
 Theorem C15_commit : forall d author ts edits orc,
   let nd := normalize_doc d in
-  let '(d', ap, sk, out) := apply_edits d author ts edits orc in
-  (wf_ids nd -> RelG (scan_ids nd) (next_comment_id nd) (d_next_uid nd) nd d') /\ (out = 0 -> ap + sk = length edits).
+  let '(d', ap, sk, out, nn) := apply_edits d author ts edits orc in
+  (wf_ids nd -> nn = 0 -> RelG (scan_ids nd) (next_comment_id nd) (d_next_uid nd) nd d') /\ (out = 0 -> ap + sk = length edits).
 Proof. exact engine_contract. Qed.
 Print Assumptions C15_commit.
 (* both start from the same text: the preview is computed on extract, the commit indexes the same string *)
